@@ -47,8 +47,7 @@ structure WDoc where
   uris : List Str                     -- NamespaceUris (indices 1..)
   modelUri : Str
   version : Str
-  required : List ReqModel            -- as written: a missing version is the text "None" (`"{}".format(None)`),
-                                      -- a missing publication date is `datetime.now()` (reported as missing here)
+  required : List ReqModel            -- as written: Version / PublicationDate only when the model has them
   nodes : List WNode
 
 def setNs (n : NodeId) (k : Int) : NodeId := { n with ns := k }
@@ -172,7 +171,7 @@ def createNodeset (namespaces : List Str) (nodes : List GNode) (refs : List (Nat
     let placed := refs.map (placeRef wids tbl)
     .ok { uris := uris2.drop 1, modelUri := modelUri,
           version := (model.bind (·.version)).getD "1.0.0".toList,
-          required := ((model.map (·.required)).getD []).map (fun r => { r with version := some (r.version.getD "None".toList) }),
+          required := (model.map (·.required)).getD [],
           nodes := written.map (wnodeOf inUse tbl placed) }
 
 /-- `UAGraph.write_nodeset(…, namespace_uri, include_outgoing_instance_level_references)` -/
@@ -234,20 +233,21 @@ def joinLines : List Str → Str
   | [a] => a
   | a :: b :: r => a ++ '\n' :: joinLines (b :: r)
 
-/-- `create_required_models` -/
-def requiredText (rs : List ReqModel) (now : Str) : Str :=
-  rs.flatMap (fun r => "\n        <RequiredModel ModelUri=\"".toList ++ escAttr (r.uri.getD "None".toList) ++ "\" Version=\"".toList ++
-    (r.version.getD "None".toList) ++ "\" PublicationDate=\"".toList ++ (r.publicationDate.getD now) ++ "\" />".toList) ++
+/-- `create_required_models`: Version and PublicationDate are written only when present -/
+def requiredText (rs : List ReqModel) : Str :=
+  rs.flatMap (fun r => "\n        <RequiredModel ModelUri=\"".toList ++ escAttr (r.uri.getD "None".toList) ++ ['"'] ++
+    (match r.version with | some v => " Version=\"".toList ++ v ++ ['"'] | none => []) ++
+    (match r.publicationDate with | some d => " PublicationDate=\"".toList ++ d ++ ['"'] | none => []) ++ " />".toList) ++
   (if rs = [] then [] else "\n    ".toList)
 
 /-- `create_header_xml` + body + closing tag; `lastModified` / `publicationDate` are the `isoformat()` texts -/
-def renderDoc (d : WDoc) (lastModified publicationDate now : Str) : Str :=
+def renderDoc (d : WDoc) (lastModified publicationDate : Str) : Str :=
   "<?xml version=\"1.0\" encoding=\"utf-8\"?>\n<UANodeSet LastModified=\"".toList ++ lastModified ++
   "\"  xmlns:xsd=\"http://www.w3.org/2001/XMLSchema\" xmlns:xsi=\"http://www.w3.org/2001/XMLSchema-instance\" xmlns=\"http://opcfoundation.org/UA/2011/03/UANodeSet.xsd\">\n".toList ++
   (if d.uris = [] then [] else "<NamespaceUris>\n".toList ++ d.uris.flatMap (fun u => "<Uri>".toList ++ escText u ++ "</Uri>\n".toList) ++
     "</NamespaceUris>\n".toList) ++
   "\n<Models>\n    <Model ModelUri=\"".toList ++ escAttr d.modelUri ++ "\" PublicationDate=\"".toList ++ publicationDate ++
-  "\" Version=\"".toList ++ d.version ++ "\">".toList ++ requiredText d.required now ++ "</Model>\n</Models>\n<Aliases></Aliases>\n".toList ++
+  "\" Version=\"".toList ++ d.version ++ "\">".toList ++ requiredText d.required ++ "</Model>\n</Models>\n<Aliases></Aliases>\n".toList ++
   joinLines (d.nodes.map nodeText) ++ "\n</UANodeSet>".toList
 
 end Opcua
